@@ -28,6 +28,7 @@ BASE = ('panic', 'overlap', 'ran_twice')
 def scenarios(prop, tier, seed=0):
     q = tier == 'quick'
     L = []
+    GATE = {'acts': ['enter', ('gate', 0), 'exit']}
     if prop == 'C09':
         L.append(S('c09_p0_sync_try_desync', [T('A', ('sync', 0)), T('B', ('try_sync', 0)), T('C', ('desync', 0)), T('Z', ('sync', 0), final=True)],
                    pool_max=0, R=3, B=12, oracles=BASE + ('results', 'deadlock', 'order')))
@@ -35,44 +36,98 @@ def scenarios(prop, tier, seed=0):
                    pool_max=0, R=3, B=12, oracles=BASE + ('results', 'deadlock', 'final_try_sync')))
         L.append(S('c09_p1_desync_try', [T('A', ('desync', 0)), T('B', ('try_sync', 0))],
                    pool_max=1, R=3, B=14, oracles=BASE + ('results', 'deadlock', 'quiescent_complete', 'order')))
-        L.append(S('c09_p1_sync_try_desync', [T('A', ('sync', 0)), T('B', ('try_sync', 0)), T('C', ('desync', 0))],
+        L.append(S('c09_p1_try_desync_try', [T('A', ('try_sync', 0), ('desync', 0)), T('B', ('try_sync', 0))],
                    pool_max=1, R=3, B=14, oracles=BASE + ('results', 'deadlock', 'quiescent_complete')))
+        if not q:
+            L.append(S('c09_p1_sync_try_desync', [T('A', ('sync', 0)), T('B', ('try_sync', 0)), T('C', ('desync', 0))],
+                       pool_max=1, R=3, B=14, oracles=BASE + ('results', 'deadlock', 'quiescent_complete')))
+            L.append(S('c09_p1_fut_try', [T('A', ('future_desync', 0, {'fut': ('gate', 0), 'as': 'f'}), ('detach', 'f')), T('B', ('try_sync', 0)), T('W', ('open_gate', 0))],
+                       pool_max=1, R=3, B=14, oracles=BASE + ('results', 'deadlock', 'quiescent_complete')))
     elif prop == 'C03':
-        L.append(S('c03_p1_two_queues', [T('A', ('desync', 0)), T('B', ('desync', 1))], pool_max=1, queues=2, R=3, B=16,
-                   oracles=BASE + ('deadlock', 'quiescent_complete')))
-        L.append(S('c03_p1_desync_desync_sync', [T('A', ('desync', 0), ('desync', 0)), T('B', ('sync', 0))], pool_max=1, R=3, B=16,
-                   oracles=BASE + ('deadlock', 'quiescent_complete', 'results')))
-        L.append(S('c03_p1_sync_try_desync', [T('A', ('sync', 0)), T('B', ('try_sync', 0)), T('C', ('desync', 0))], pool_max=1, R=3, B=14,
-                   oracles=BASE + ('deadlock', 'quiescent_complete')))
+        L.append(S('c03_p1_two_queues', [T('A', ('desync', 0)), T('B', ('desync', 1))], pool_max=1, queues=2, R=3, B=14,
+                   oracles=BASE + ('quiescent_complete',)))
+        L.append(S('c03_p1_desync_sync', [T('A', ('desync', 0)), T('B', ('sync', 0))], pool_max=1, R=3, B=14,
+                   oracles=BASE + ('quiescent_complete',)))
+        L.append(S('c03_p1_desync_try', [T('A', ('desync', 0)), T('B', ('try_sync', 0))], pool_max=1, R=3, B=14,
+                   oracles=BASE + ('quiescent_complete',)))
+        if not q:
+            L.append(S('c03_p1_desync_desync_sync', [T('A', ('desync', 0), ('desync', 0)), T('B', ('sync', 0))], pool_max=1, R=3, B=16,
+                       oracles=BASE + ('quiescent_complete', 'results')))
+            L.append(S('c03_p1_sync_try_desync', [T('A', ('sync', 0)), T('B', ('try_sync', 0)), T('C', ('desync', 0))], pool_max=1, R=3, B=14,
+                       oracles=BASE + ('quiescent_complete',)))
+            L.append(S('c03_p2_three_queues', [T('A', ('desync', 0)), T('B', ('desync', 1)), T('C', ('desync', 2))], pool_max=2, queues=3, R=3, B=14,
+                       oracles=BASE + ('quiescent_complete',)))
     elif prop == 'C04':
         L.append(S('c04_p0_sync_sync_desync', [T('A', ('sync', 0)), T('B', ('sync', 0)), T('C', ('desync', 0))], pool_max=0, R=3, B=14,
                    oracles=BASE + ('results', 'deadlock')))
-        L.append(S('c04_p1_desync_sync', [T('A', ('desync', 0)), T('B', ('sync', 0))], pool_max=1, R=3, B=16,
-                   oracles=BASE + ('results', 'deadlock', 'quiescent_complete')))
-        L.append(S('c04_p1_gate_desync_sync', [T('A', ('desync', 0, {'acts': ['enter', ('gate', 0), 'exit']})), T('B', ('sync', 0)), T('W', ('open_gate', 0))],
-                   pool_max=1, R=3, B=16, oracles=BASE + ('results', 'deadlock')))
+        L.append(S('c04_p1_desync_sync', [T('A', ('desync', 0)), T('B', ('sync', 0))], pool_max=1, R=3, B=14,
+                   oracles=BASE + ('results', 'deadlock')))
+        L.append(S('c04_p1_gate_desync_sync', [T('A', ('desync', 0, GATE)), T('B', ('sync', 0)), T('W', ('open_gate', 0))],
+                   pool_max=1, R=3, B=14, oracles=BASE + ('results', 'deadlock')))
+        if not q:
+            L.append(S('c04_p1_sync_sync', [T('A', ('sync', 0)), T('B', ('sync', 0)), T('C', ('desync', 0))], pool_max=1, R=3, B=14,
+                       oracles=BASE + ('results', 'deadlock')))
+            L.append(S('c04_p1_two_objects', [T('A', ('desync', 0, GATE)), T('B', ('sync', 0)), T('C', ('sync', 1)), T('W', ('open_gate', 0))],
+                       pool_max=1, queues=2, R=3, B=14, oracles=BASE + ('results', 'deadlock')))
     elif prop == 'C01':
-        L.append(S('c01_p1_desync_sync_try', [T('A', ('desync', 0)), T('B', ('sync', 0)), T('C', ('try_sync', 0))], pool_max=1, R=3, B=14,
-                   oracles=BASE + ('deadlock',)))
-        L.append(S('c01_p1_desync2_sync', [T('A', ('desync', 0), ('desync', 0)), T('B', ('sync', 0))], pool_max=1, R=3, B=16,
-                   oracles=BASE + ('deadlock',)))
-        L.append(S('c01_p0_sync_sync_try', [T('A', ('sync', 0)), T('B', ('sync', 0)), T('C', ('try_sync', 0))], pool_max=0, R=3, B=14,
-                   oracles=BASE + ('deadlock',)))
+        L.append(S('c01_p1_desync_sync', [T('A', ('desync', 0)), T('B', ('sync', 0))], pool_max=1, R=3, B=14, oracles=BASE))
+        L.append(S('c01_p1_desync_try', [T('A', ('desync', 0)), T('B', ('try_sync', 0))], pool_max=1, R=3, B=14, oracles=BASE))
+        L.append(S('c01_p0_sync_sync_try', [T('A', ('sync', 0)), T('B', ('sync', 0)), T('C', ('try_sync', 0))], pool_max=0, R=3, B=14, oracles=BASE))
+        if not q:
+            L.append(S('c01_p1_desync_sync_try', [T('A', ('desync', 0)), T('B', ('sync', 0)), T('C', ('try_sync', 0))], pool_max=1, R=3, B=14, oracles=BASE))
+            L.append(S('c01_p1_desync2_sync', [T('A', ('desync', 0), ('desync', 0)), T('B', ('sync', 0))], pool_max=1, R=3, B=16, oracles=BASE))
+            L.append(S('c01_p1_fut_sync', [T('A', ('future_desync', 0, {'fut': ('gate', 0), 'as': 'f'}), ('detach', 'f')), T('B', ('sync', 0)), T('W', ('open_gate', 0))],
+                       pool_max=1, R=3, B=14, oracles=BASE))
     elif prop == 'C02':
-        L.append(S('c02_p1_desync_desync_sync', [T('A', ('desync', 0), ('desync', 0)), T('B', ('sync', 0))], pool_max=1, R=3, B=16,
-                   oracles=BASE + ('order', 'deadlock')))
-        L.append(S('c02_p0_sync_desync_sync', [T('A', ('sync', 0)), T('B', ('desync', 0), ('sync', 0))], pool_max=0, R=3, B=16,
-                   oracles=BASE + ('order', 'deadlock')))
-        L.append(S('c02_p1_desync_try_sync', [T('A', ('desync', 0), ('try_sync', 0)), T('B', ('sync', 0))], pool_max=1, R=3, B=16,
-                   oracles=BASE + ('order', 'deadlock')))
+        L.append(S('c02_p1_desync_desync', [T('A', ('desync', 0), ('desync', 0))], pool_max=1, R=3, B=14, oracles=BASE + ('order',)))
+        L.append(S('c02_p0_sync_desync_sync', [T('A', ('sync', 0)), T('B', ('desync', 0), ('sync', 0))], pool_max=0, R=3, B=14, oracles=BASE + ('order',)))
+        L.append(S('c02_p1_desync_sync', [T('A', ('desync', 0)), T('B', ('sync', 0))], pool_max=1, R=3, B=14, oracles=BASE + ('order',)))
+        if not q:
+            L.append(S('c02_p1_desync_desync_sync', [T('A', ('desync', 0), ('desync', 0)), T('B', ('sync', 0))], pool_max=1, R=3, B=16, oracles=BASE + ('order',)))
+            L.append(S('c02_p1_desync_try_sync', [T('A', ('desync', 0), ('try_sync', 0)), T('B', ('sync', 0))], pool_max=1, R=3, B=16, oracles=BASE + ('order',)))
     elif prop == 'C10':
-        L.append(S('c10_p2_gate_other', [T('A', ('desync', 0, {'acts': ['enter', ('gate', 0), 'exit']})), T('B', ('desync', 1))], pool_max=2, queues=2, R=3, B=16,
+        L.append(S('c10_p2_gate_other', [T('A', ('desync', 0, GATE)), T('B', ('desync', 1))], pool_max=2, queues=2, R=3, B=14,
                    oracles=BASE + ('independent',)))
+        if not q:
+            L.append(S('c10_p2_gate_sync_other', [T('A', ('desync', 0, GATE)), T('B', ('sync', 0)), T('C', ('desync', 1))], pool_max=2, queues=2, R=3, B=14,
+                       oracles=BASE + ('independent',)))
     elif prop == 'C17':
-        L.append(S('c17_p1_two_spawners', [T('A', ('desync', 0)), T('B', ('desync', 1))], pool_max=1, pool_slots=2, queues=2, R=3, B=16,
-                   oracles=BASE + ('pool_max', 'deadlock')))
+        L.append(S('c17_p1_two_spawners', [T('A', ('desync', 0)), T('B', ('desync', 1))], pool_max=1, pool_slots=2, queues=2, R=3, B=14,
+                   oracles=BASE + ('pool_max',)))
         L.append(S('c17_p0_no_threads', [T('A', ('desync', 0)), T('B', ('sync', 0))], pool_max=0, pool_slots=1, R=2, B=16,
                    oracles=BASE + ('pool_max', 'deadlock')))
+        if not q:
+            L.append(S('c17_p2_three_spawners', [T('A', ('desync', 0)), T('B', ('desync', 1)), T('C', ('desync', 2))], pool_max=2, pool_slots=3, queues=3, R=3, B=14,
+                       oracles=BASE + ('pool_max',)))
+    elif prop == 'C06':
+        for P in (1, 0):
+            ths = [T('A', ('future_desync', 0, {'fut': ('gate', 0), 'as': 'f'}), ('block_on', 'f')), T('W', ('open_gate', 0))]
+            L.append(S('c06_p%d_poll_drain' % P, ths, pool_max=P, R=3, B=16, oracles=BASE + ('deadlock', 'fut_results')))
+        L.append(S('c06_p1_pool_runner', [T('A', ('future_desync', 0, {'fut': ('gate', 0), 'as': 'f'}), ('detach', 'f'), ('desync', 0)), T('W', ('open_gate', 0))],
+                   pool_max=1, R=3, B=16, oracles=BASE + ('deadlock', 'quiescent_complete')))
+        L.append(S('c06_p0_sync_runner', [T('A', ('future_desync', 0, {'fut': ('gate', 0), 'as': 'f'}), ('detach', 'f'), ('sync', 0)), T('W', ('open_gate', 0))],
+                   pool_max=0, R=3, B=16, oracles=BASE + ('deadlock', 'results')))
+    elif prop == 'C07':
+        L.append(S('c07_p1_await', [T('A', ('future_desync', 0, {'fut': 'ready', 'as': 'f'}), ('block_on', 'f'))], pool_max=1, R=3, B=16,
+                   oracles=BASE + ('deadlock', 'fut_results')))
+        L.append(S('c07_p0_await', [T('A', ('future_desync', 0, {'fut': 'ready', 'as': 'f'}), ('block_on', 'f'))], pool_max=0, R=2, B=20,
+                   oracles=BASE + ('deadlock', 'fut_results')))
+        L.append(S('c07_p1_syncfut', [T('A', ('future_desync', 0, {'fut': 'ready', 'as': 'f'}), ('sync_fut', 'f'))], pool_max=1, R=3, B=16,
+                   oracles=BASE + ('deadlock', 'fut_results')))
+        L.append(S('c07_p1_detach', [T('A', ('future_desync', 0, {'fut': 'ready', 'as': 'f'}), ('detach', 'f'))], pool_max=1, R=3, B=16,
+                   oracles=BASE + ('deadlock', 'quiescent_complete')))
+    elif prop == 'C13':
+        L.append(S('c13_p1_suspend_resume', [T('A', ('desync', 0), ('suspend', 0, {'as': 's'}), ('desync', 0), ('block_on', 's'), ('resume', 's', 'resume'))],
+                   pool_max=1, R=3, B=18, oracles=BASE + ('deadlock', 'suspend', 'quiescent_complete')))
+        L.append(S('c13_p1_suspend_drop', [T('A', ('suspend', 0, {'as': 's'}), ('desync', 0), ('block_on', 's'), ('resume', 's', 'drop'))],
+                   pool_max=1, R=3, B=18, oracles=BASE + ('deadlock', 'suspend', 'quiescent_complete')))
+    elif prop == 'C08':
+        L.append(S('c08_p1_await', [T('A', ('future_sync', 0, {'fut': 'ready', 'as': 'f'}), ('block_on', 'f'), ('desync', 0))], pool_max=1, R=3, B=18,
+                   oracles=BASE + ('deadlock', 'fut_results', 'quiescent_complete')))
+        L.append(S('c08_p1_drop_unpolled', [T('A', ('future_sync', 0, {'fut': 'ready', 'as': 'f'}), ('drop_fut', 'f'), ('desync', 0))], pool_max=1, R=3, B=18,
+                   oracles=BASE + ('deadlock', 'cancelled_clean', 'quiescent_complete')))
+        L.append(S('c08_p1_drop_midway', [T('A', ('future_sync', 0, {'fut': ('gate', 0), 'as': 'f'}), ('poll', 'f'), ('poll', 'f'), ('drop_fut', 'f'), ('desync', 0))], pool_max=1, R=3, B=18,
+                   oracles=BASE + ('deadlock', 'cancelled_clean', 'quiescent_complete')))
     return L
 
 def bounds_text(prop, tier):
